@@ -177,4 +177,34 @@ def checkPlanX (c : Case) : CaseResult := Id.run do
   | none => pure ()
   return { verdict := .ok, nontrivial := out.crossNodes.length > 0, stats := stats }
 
+/-- exact tie of the final planar graph for the older `plan-*` classes (kind `plan`: hand-routed grids and real
+`LeaflessOrthoRouter` routes), which print only the input and the planar graph. Runs after `checkPlan` said OK. -/
+def tieFinal (r : CaseResult) (c : Case) : CaseResult := Id.run do
+  let some inp := parseInput c | return r
+  let out := planarise inp
+  let origIds := inp.nodes.map (·.id)
+  let base := firstFreeId inp.nodes
+  let some qn := (c.get "qn").toList.mapM (fun l => do let p ← pt? l[1]! l[2]!; pure (Node.mk (nat! l[0]!) p))
+    | return r
+  let newIds := sortNat ((qn.map (·.id)).filter (fun i => !origIds.contains i))
+  let ren (i : Nat) : Nat := if origIds.contains i then i else
+    match newIds.idxOf? i with
+    | some k => base + k
+    | none => 1000000 + i
+  let amb := ambiguity inp
+  let mut stats := r.stats
+  let mN := sortNodes out.nodes
+  let iN := sortNodes (qn.map (fun n => ⟨ren n.id, n.p⟩))
+  let mE := sortPairs out.edges
+  let iE := sortPairs ((c.get "qe").toList.map (fun l => (ren (nat! l[0]!), ren (nat! l[1]!))))
+  let diff : Option String :=
+    if mN != iN then some s!"planar nodes: impl {showNodes iN} model {showNodes mN}"
+    else if mE != iE then some s!"planar edges: impl {iE} model {mE}" else none
+  if amb.any then stats := ("plan.tie.ambiguous", 1) :: stats
+  match diff with
+  | some d =>
+    if amb.any then return { r with stats := ("plan.tie.ambiguousMismatch", 1) :: stats }
+    else return { r with verdict := .diverge s!"planarise tie: {d}", stats := stats }
+  | none => return { r with stats := ("plan.tie.exact", 1) :: stats }
+
 end Driver.C19Planarise
